@@ -342,16 +342,20 @@ pub fn alphabets(thorough: bool) -> Vec<TypeAlpha> {
         code: 24,
         values: vec![sig24(1, 8, 2, "Signer.z", &[1, 2, 3, 4]), sig24(1, 8, 2, "signer.z", &[1, 2, 3, 4]), sig24(1, 8, 2, "a.z", &[1, 2, 3]), sig24(0, 8, 0, "", &[9; 16])],
     });
+    // two obsolete RFC 1035 types of the RFC 4034 6.2 list without typed RDATA in hickory (one name /
+    // two names; a sender may compress them): the class is present in the quick tier, the other
+    // eight types are thorough-only
+    v.push(TypeAlpha { judged: true, name: "MB", code: 7, values: vec![vec![n("T.z")], vec![n("a.z")]] });
+    v.push(TypeAlpha { judged: true, name: "MINFO", code: 14, values: vec![vec![n("R.z"), n("E.z")], vec![n("a.z"), n("")]] });
     if thorough {
         // the remaining (obsolete) types of the RFC 4034 6.2 list; hickory has no typed RDATA for them
-        for (name, code) in [("MD", 3u16), ("MF", 4), ("MB", 7), ("MG", 8), ("MR", 9)] {
-            v.push(TypeAlpha { judged: false, name, code, values: vec![vec![n("T.z")], vec![n("a.z")]] });
+        for (name, code) in [("MD", 3u16), ("MF", 4), ("MG", 8), ("MR", 9)] {
+            v.push(TypeAlpha { judged: true, name, code, values: vec![vec![n("T.z")], vec![n("a.z")]] });
         }
-        v.push(TypeAlpha { judged: false, name: "MINFO", code: 14, values: vec![vec![n("R.z"), n("E.z")], vec![n("a.z"), n("")]] });
-        v.push(TypeAlpha { judged: false, name: "RT", code: 21, values: vec![vec![u16b(1), n("R.z")], vec![u16b(1), n("a.z")]] });
-        v.push(TypeAlpha { judged: false, name: "PX", code: 26, values: vec![vec![u16b(1), n("M.z"), n("X.z")], vec![u16b(1), n("a.z"), n("")]] });
-        v.push(TypeAlpha { judged: false, name: "NXT", code: 30, values: vec![vec![n("N.z"), b(&[0x40, 0x01])], vec![n("a.z"), b(&[0x40])]] });
-        v.push(TypeAlpha { judged: false, name: "A6", code: 38, values: vec![vec![b(&[128]), n("P.z")], vec![b(&[128]), n("a.z")]] });
+        v.push(TypeAlpha { judged: true, name: "RT", code: 21, values: vec![vec![u16b(1), n("R.z")], vec![u16b(1), n("a.z")]] });
+        v.push(TypeAlpha { judged: true, name: "PX", code: 26, values: vec![vec![u16b(1), n("M.z"), n("X.z")], vec![u16b(1), n("a.z"), n("")]] });
+        v.push(TypeAlpha { judged: true, name: "NXT", code: 30, values: vec![vec![n("N.z"), b(&[0x40, 0x01])], vec![n("a.z"), b(&[0x40])]] });
+        v.push(TypeAlpha { judged: true, name: "A6", code: 38, values: vec![vec![b(&[128]), n("P.z")], vec![b(&[128]), n("a.z")]] });
         v.push(TypeAlpha { judged: true, name: "RP", code: 17, values: vec![vec![n("Box.z"), n("Txt.z")], vec![n("a.z"), n("")]] });
         v.push(TypeAlpha { judged: true, name: "AFSDB", code: 18, values: vec![vec![u16b(1), n("Db.z")], vec![u16b(2), n("a.z")]] });
     }
